@@ -18,6 +18,7 @@ def plan(tier, seed):
            env=dict(VERIF_SLEN=sl, VERIF_PNAMES="kk,k"))
     j["name"] += "[names=kk,k]"
     jobs.append(j)
+    jobs.append(ch("C08", F, "h_partition_rows", t, ["writer.partition_on_columns"]))
     jobs.append(ch("C08", "vf/pyshim/h_wfile.py", "h_append_scheme", t,
                    ["api.ParquetFile.write_row_groups", "writer.write_multi", "writer.partition_on_columns",
                     "api.paths_to_cats"]))
